@@ -436,8 +436,8 @@ def enumerate_corruptions(rng, obj, n_offsets=3, every_byte=False):
         m = re.search(rb'[,:]', b)
         if m:
             inv_c("inventory-whitespace", b[:m.end()] + b" " + b[m.end():], {"edit": "space after first separator"})
-        # one inserted byte that leaves the user address without a valid scheme: uriparse panics inside rocfl
-        # (C17 known finding uri-colon-segment); kept so that the crossover stays visible
+        # one inserted byte that leaves the user address without a valid scheme: uriparse used to panic inside rocfl
+        # (former C17 known finding uri-colon-segment, repaired by 389bfd0): a must-pass corruption now
         m = re.search(rb'"mailto:', b)
         if m:
             inv_c("inventory-address-scheme", b[:m.start() + 1] + b"0" + b[m.start() + 1:],
